@@ -1,7 +1,247 @@
+import LoraVerif.Gen.Modulation
+import LoraVerif.Gen.PhyArith
+import LoraVerif.Spec.SemtechArith
+import LoraVerif.Model.PhyArith
 import Driver.Util
-/-! Suite C17: line-protocol handlers (stub — replaced when the property's model is built). -/
+/-! Suite C17.  `<model>|<spec>`.  Functional requirements (`pll…`): spec = the datasheet value.
+Relational requirements: the op line ends with the implementation's observation `obs`; the model
+side prints the model's observation in the same format, the spec side echoes `obs` when `obs`
+satisfies the requirement of `Spec.Semtech` and prints `SPEC-VIOLATION` otherwise.  Digest ops fold
+the model values; their spec digest folds the model value where the requirement holds and a
+marker where it does not. -/
+open Gen.Modulation Gen.PhyArith
+open Spec.Semtech (Chip)
+open Model.PhyArith
 namespace Driver.C17
 
-def handle (_ws : List String) : String := "bad-op"
+def sfOf? (n : Int) : Option SpreadingFactor := SpreadingFactor.all.find? (fun s => s.factor == n)
+def bwOf? (n : Int) : Option Bandwidth := Bandwidth.all.find? (fun b => b.hz == n)
+
+/-- `a,b,-,c` → `[some a, some b, none, some c]`; `none` if a field is neither `-` nor an integer -/
+def parseObs (s : String) : Option (List (Option Int)) :=
+  (s.splitOn ",").mapM (fun w => if w = "-" then some none else (parseInt? w).map some)
+
+def showO : Option Int → String
+  | some v => toString v
+  | none => "-"
+
+def joinC (l : List String) : String := ",".intercalate l
+
+def inRange (f : Int) : Bool := 137000000 ≤ f && f ≤ 1020000000
+
+def viol : String := "SPEC-VIOLATION"
+
+/-- variant name → (chip, high-power PA selected) -/
+def variantOf? (s : String) : Option (Chip × Bool) :=
+  if s = "sx1261" then some (.sx1261, false)
+  else if s = "sx1262" then some (.sx1262, true)
+  else if s = "stm32wl-lp" then some (.stm32wl, false)
+  else if s = "stm32wl-hp" then some (.stm32wl, true)
+  else none
+
+def chip127? (s : String) : Option Chip :=
+  if s = "sx1276" then some .sx1276 else if s = "sx1272" then some .sx1272 else none
+
+def pack2 : Option (Int × Int) → Option Int
+  | some (r, s) => some (r * 65536 + s)
+  | none => none
+
+/-- FNV-1a over the 8 little-endian bytes of a word, unrolled on unboxed `UInt64`
+(same function as `Driver.Fnv.word`; the sweep over 1.8·10^9 cases spends its time here) -/
+@[inline] def fnvByte (h b : UInt64) : UInt64 := (h ^^^ b) * 0x100000001b3
+@[inline] def fnvWord (h w : UInt64) : UInt64 :=
+  let h := fnvByte h (w &&& 0xff)
+  let h := fnvByte h ((w >>> 8) &&& 0xff)
+  let h := fnvByte h ((w >>> 16) &&& 0xff)
+  let h := fnvByte h ((w >>> 24) &&& 0xff)
+  let h := fnvByte h ((w >>> 32) &&& 0xff)
+  let h := fnvByte h ((w >>> 40) &&& 0xff)
+  let h := fnvByte h ((w >>> 48) &&& 0xff)
+  fnvByte h (w >>> 56)
+
+/-- `Driver.optWord` with a fast path for small non-negative values (the general path reduces
+modulo the bignum 2^64) -/
+@[inline] def optWordFast : Option Int → UInt64
+  | none => 0xFFFFFFFFFFFFFFFF
+  | some v => if 0 ≤ v ∧ v < 4611686018427387904 then v.toNat.toUInt64 else optWord (some v)
+
+/-- model digest and spec digest of one block in a single pass -/
+def digestRange2 (lo n : Nat) (model : Int → Option Int) (spec : Int → Option Int → Option Int) : UInt64 × UInt64 := Id.run do
+  let mut hm : UInt64 := 0xcbf29ce484222325
+  let mut hs : UInt64 := 0xcbf29ce484222325
+  for i in [0:n] do
+    let f : Int := (((lo + i) % 4294967296 : Nat) : Int)
+    let m := model f
+    hm := fnvWord hm (optWordFast m)
+    hs := fnvWord hs (optWordFast (spec f m))
+  return (hm, hs)
+
+def marker : Option Int := some 0x5BADBADBAD
+
+def handle (ws : List String) : String :=
+  match ws with
+  | ["pll126", f] =>
+    match parseInt? f with
+    | some f =>
+      let s := if inRange f then toString (Spec.Semtech.sx126xPll f) else "-"
+      s!"{showOptInt (sx126xSetChannel f)}|{s}"
+    | none => "bad-op"
+  | ["pll127", f] =>
+    match parseInt? f with
+    | some f =>
+      let s := if inRange f then toString (Spec.Semtech.sx127xPll f) else "-"
+      s!"{showOptInt (sx127xSetChannel f)}|{s}"
+    | none => "bad-op"
+  | ["pll126_digest", lo, n] =>
+    match lo.toNat?, n.toNat? with
+    | some lo, some n =>
+      let (m, s) := digestRange2 lo n sx126xSetChannel (fun f mv => if inRange f then some (Spec.Semtech.sx126xPll f) else mv)
+      s!"{hex64 m}|{hex64 s}"
+    | _, _ => "bad-op"
+  | ["pll127_digest", lo, n] =>
+    match lo.toNat?, n.toNat? with
+    | some lo, some n =>
+      let (m, s) := digestRange2 lo n sx127xSetChannel (fun f mv => if inRange f then some (Spec.Semtech.sx127xPll f) else mv)
+      s!"{hex64 m}|{hex64 s}"
+    | _, _ => "bad-op"
+  | ["pa126", variant, req, rf, obs] =>
+    match variantOf? variant, parseInt? req with
+    | some (c, hp), some req =>
+      let rf : Option Int := parseInt? rf
+      let m := match sx126xSetTxPower c hp req rf with
+        | .ok (d, h, s, p) => joinC [toString d, toString h, toString s, toString p]
+        | .err => "ERR"
+        | .panic => "PANIC"
+      let o : Option (Option (Nat × Nat × Nat × Int)) :=
+        if obs = "ERR" then some none
+        else match parseObs obs with
+          | some [some d, some h, some s, some p] => if d ≥ 0 ∧ h ≥ 0 ∧ s ≥ 0 then some (some (d.toNat, h.toNat, s.toNat, p)) else none
+          | _ => none
+      let s := match o with
+        | some o => if Spec.Semtech.PaOk126x c (isHighPower c hp) req rf o then obs else viol
+        | none => viol
+      s!"{m}|{s}"
+    | _, _ => "bad-op"
+  | ["pa127", chip, boost, req, obs] =>
+    match chip127? chip, parseBool? boost, parseInt? req with
+    | some c, some boost, some req =>
+      let m := match c with
+        | .sx1272 => (match sx1272SetTxPower req boost with
+            | some (cfg, dac) => joinC [toString cfg, toString dac, "-"]
+            | none => "PANIC")
+        | _ => (match sx1276SetTxPower req boost with
+            | some (cfg, dac, ocp) => joinC [toString cfg, toString dac, toString ocp]
+            | none => "PANIC")
+      let s := match parseObs obs with
+        | some [some cfg, some dac, _] =>
+          if cfg ≥ 0 ∧ dac ≥ 0 ∧ Spec.Semtech.PaOk127x c boost req cfg.toNat dac.toNat then obs else viol
+        | _ => viol
+      s!"{m}|{s}"
+    | _, _, _ => "bad-op"
+  | ["symb126", n, obs] =>
+    match parseInt? n with
+    | some n =>
+      let m := match sx126xSymbTimeout n with
+        | some (cmd, reg) => joinC [toString cmd, showO reg]
+        | none => "PANIC"
+      let s := match parseObs obs with
+        | some [some cmd, reg] =>
+          if cmd ≥ 0 ∧ (reg.all (· ≥ 0)) ∧ Spec.Semtech.SymbOk126x n.toNat cmd.toNat (reg.map Int.toNat) then obs else viol
+        | _ => viol
+      s!"{m}|{s}"
+    | none => "bad-op"
+  | ["symb127", chip, n, prior, obs] =>
+    match chip127? chip, parseInt? n, parseInt? prior with
+    | some _, some n, some prior =>
+      let m := match sx127xSymbTimeout n prior with
+        | some (cfg2, lsb) => joinC [toString cfg2, toString lsb]
+        | none => "PANIC"
+      let s := match parseObs obs with
+        | some [some cfg2, some lsb] =>
+          if cfg2 ≥ 0 ∧ lsb ≥ 0 ∧ Spec.Semtech.SymbOk127x n.toNat cfg2.toNat lsb.toNat then obs else viol
+        | _ => viol
+      s!"{m}|{s}"
+    | _, _, _ => "bad-op"
+  | ["rxsym", sf, bw, ms, obs] =>
+    match parseInt? sf >>= sfOf?, parseInt? bw >>= bwOf?, parseInt? ms with
+    | some sf, some bw, some ms =>
+      let m := showOptInt (rxModeSymbols sf bw ms)
+      let s := match parseInt? obs with
+        | some n => if Spec.Semtech.WindowCovers sf.factor bw.hz ms n then obs else viol
+        | none => viol
+      s!"{m}|{s}"
+    | _, _, _ => "bad-op"
+  | ["pkt126", b0, b1, _b2, obs] =>
+    match parseInt? b0, parseInt? b1 with
+    | some b0, some b1 =>
+      let m := match sx126xPktStatus b0 b1 with
+        | some (r, s) => joinC [toString r, toString s]
+        | none => "PANIC"
+      let s := match parseObs obs with
+        | some [some r, some sn] => if Spec.Semtech.PktOk126x b0.toNat b1.toNat r sn then obs else viol
+        | _ => viol
+      s!"{m}|{s}"
+    | _, _ => "bad-op"
+  | ["pkt126_digest", b0] =>
+    match parseInt? b0 with
+    | some b0 => Id.run do
+      let mut hm : Fnv := {}
+      let mut hs : Fnv := {}
+      for b1 in [0:256] do
+        let v := sx126xPktStatus b0 (b1 : Int)
+        let ok := match v with
+          | some (r, s) => Spec.Semtech.PktOk126x b0.toNat b1 r s
+          | none => false
+        let wm := optWord (pack2 v)
+        let wsp := if ok then wm else optWord marker
+        for _ in [0:256] do
+          hm := hm.word wm
+          hs := hs.word wsp
+      return s!"{hex64 hm.h}|{hex64 hs.h}"
+    | none => "bad-op"
+  | ["rssi126", b0, obs] =>
+    match parseInt? b0 with
+    | some b0 =>
+      let s := match parseInt? obs with
+        | some r => if Spec.Semtech.RssiOk126x b0.toNat r then obs else viol
+        | none => viol
+      s!"{showOptInt (sx126xRssi b0)}|{s}"
+    | none => "bad-op"
+  | ["pkt127", chip, snr, rssi, frf, obs] =>
+    match chip127? chip, parseInt? snr, parseInt? rssi, parseInt? frf with
+    | some c, some snr, some rssi, some frf =>
+      let m := match sx127xPktStatus c snr rssi frf with
+        | some (r, s) => joinC [toString r, toString s]
+        | none => "PANIC"
+      let s := match parseObs obs with
+        | some [some r, some sn] => if Spec.Semtech.PktOk127x c frf.toNat rssi.toNat snr.toNat r sn then obs else viol
+        | _ => viol
+      s!"{m}|{s}"
+    | _, _, _, _ => "bad-op"
+  | ["pkt127_digest", chip, frf] =>
+    match chip127? chip, parseInt? frf with
+    | some c, some frf => Id.run do
+      let mut hm : Fnv := {}
+      let mut hs : Fnv := {}
+      for snr in [0:256] do
+        for rssi in [0:256] do
+          let v := sx127xPktStatus c (snr : Int) (rssi : Int) frf
+          let ok := match v with
+            | some (r, s) => Spec.Semtech.PktOk127x c frf.toNat rssi snr r s
+            | none => false
+          let wm := optWord (pack2 v)
+          hm := hm.word wm
+          hs := hs.word (if ok then wm else optWord marker)
+      return s!"{hex64 hm.h}|{hex64 hs.h}"
+    | _, _ => "bad-op"
+  | ["rssi127", chip, raw, frf, obs] =>
+    match chip127? chip, parseInt? raw, parseInt? frf with
+    | some c, some raw, some frf =>
+      let s := match parseInt? obs with
+        | some r => if Spec.Semtech.RssiOk127x c frf.toNat raw.toNat r then obs else viol
+        | none => viol
+      s!"{showOptInt (sx127xRssi c raw frf)}|{s}"
+    | _, _, _ => "bad-op"
+  | _ => "bad-op"
 
 end Driver.C17
